@@ -77,7 +77,10 @@ def gxx_oracle(d, header_text, names, full):
     r = tools.gxx(["-w", "-fmax-errors=0", "-o", exe, "o.cxx"], cwd=d)
     if r.rc != 0:
         bad = _err_lines(r.err, "t.h")
-        for ln in _err_lines(r.err, "o.cxx"):
+        # a trait that cannot be evaluated without a hard error (e.g. synthesising an implicit destructor that is
+        # ill-formed) makes its class unjudgeable: "required from here" names the printf line of that class
+        req = {int(m.group(1)) for m in re.finditer(r"(?m)^o\.cxx:(\d+):\d+:\s+required from here", r.err)}
+        for ln in set(_err_lines(r.err, "o.cxx")) | req:
             k = ln - first
             if 0 <= k < len(names):
                 bad.add(("name", names[k]))
